@@ -18,7 +18,12 @@ def gen_cases(rnd, tier):
     k = 5 if tier == "thorough" else 1
     full = tier == "thorough"
     cases = []
-    for i in range(200 * k):
+    # sessions: one geometry / one signal object, several nearby DMs, DM object stepped in place
+    for i in range(45 * k):
+        cases.append(D.gen_chirpseq_case(rnd))
+    for i in range(25 * k):
+        cases.append(D.gen_toneseq_case(rnd, NS[1:]))
+    for i in range(140 * k):
         c = D.gen_chirpfn_case(rnd, full and i % 4 == 0)
         if i % 100 == 0:
             c["xcheck"] = rnd.choice(c["bins"])
@@ -29,7 +34,7 @@ def gen_cases(rnd, tier):
         if i % 40 == 0:
             c["xcheck"] = rnd.choice(c["bins"])
         cases.append(c)
-    for i in range(100 * k):
+    for i in range(60 * k):
         c = D.gen_bb_case(rnd, "tone", NS[1:])
         c["supplied"] = i % 3 == 0
         cases.append(c)
@@ -67,6 +72,9 @@ def run(chk):
     sup = [e for e in events if e["ev"] == "supplied"]
     chk.notes["supplied_chirp_bitwise_identical"] = "%d of %d" % (sum(1 for e in sup if e["_bitwise"]), len(sup))
     beh = [e for e in events if e["ev"] in ("cohdd", "tone", "crop", "roundtrip")]
+    cases = [c.get("base", c) for c in cases]
+    chk.notes["sessions"] = {"chirp_one_geometry": 45 * (5 if chk.tier == "thorough" else 1),
+                             "tones_one_signal_object": 25 * (5 if chk.tier == "thorough" else 1)}
     chk.notes["coherent_calls"] = {
         "numpy": sum(1 for e in beh if not cases[e["_case"]].get("dask")),
         "dask": sum(1 for e in beh if cases[e["_case"]].get("dask")),
